@@ -51,6 +51,10 @@ SAN_ENV = {
 DEFAULT = {"variant": "asan", "adapters": True, "quick": {"shards": 8, "n": 1500, "scale": 20, "arg": 0},
            "thorough": {"shards": 16, "n": 12000, "scale": 30, "arg": 0}, "fuzz_s": 0}
 CONFIG = {
+    "C01": {"quick": {"shards": 8, "n": 1500, "scale": 20, "arg": 10},
+            "thorough": {"shards": 16, "n": 10000, "scale": 40, "arg": 24}},
+    "C02": {"quick": {"shards": 8, "n": 700, "scale": 20, "arg": 10},
+            "thorough": {"shards": 16, "n": 5000, "scale": 40, "arg": 24}},
     "C18": {"quick": {"shards": 8, "n": 2500, "scale": 10, "arg": 6},
             "thorough": {"shards": 16, "n": 20000, "scale": 16, "arg": 10}},
     "C07": {"quick": {"shards": 8, "n": 2500, "scale": 8, "arg": 10},
@@ -238,8 +242,8 @@ def env_for_run():
     return e
 
 
-def replay_once(binary, path, known=(), timeout=120):
-    cmd = [binary, "--replay", path]
+def replay_once(binary, path, known=(), timeout=120, case_timeout=20):
+    cmd = [binary, "--replay", path, "--case-timeout", str(case_timeout)]
     if known:
         cmd += ["--known", ",".join(known)]
     try:
@@ -251,8 +255,8 @@ def replay_once(binary, path, known=(), timeout=120):
 
 def crash_signature(rc, stderr):
     """A short, stable summary of a sanitizer / assertion abort."""
-    if rc == -999:
-        return "hang(timeout)"
+    if rc == -999 or rc == 88:
+        return "non-termination (case watchdog)"
     for line in stderr.splitlines():
         if "SUMMARY:" in line:
             s = line.split("SUMMARY:", 1)[1].strip()
@@ -275,10 +279,12 @@ def shrink_crash(binary, data, sig, budget_s=60, known=()):
     t_end = time.time() + budget_s
     tmp = os.path.join(BUILD_ROOT, "shrink.%d.bin" % os.getpid())
 
+    hang = sig.startswith("non-termination")
+
     def still(d):
         with open(tmp, "wb") as f:
             f.write(d)
-        rc, _, err = replay_once(binary, tmp, known, timeout=30)
+        rc, _, err = replay_once(binary, tmp, known, timeout=30, case_timeout=4 if hang else 20)
         return is_crash(rc) and crash_signature(rc, err) == sig
 
     cur = bytes(data)
@@ -327,7 +333,7 @@ def shard_seed(seed, shard, pid):
 def run_shard(binary, pid, seed, shard, tcfg, outdir, known, extra_args=()):
     out = os.path.join(outdir, "shard_%d.json" % shard)
     cmd = [binary, "--rc", "--seed", str(shard_seed(seed, shard, pid)), "--n", str(tcfg["n"]), "--scale", str(tcfg["scale"]),
-           "--max-size", str(tcfg.get("max_size", 100)), "--size-arg", str(tcfg.get("arg", 0)), "--out", out] + list(extra_args)
+           "--max-size", str(tcfg.get("max_size", 100)), "--size-arg", str(tcfg.get("arg", 0)), "--case-timeout", str(tcfg.get("case_timeout", 30)), "--out", out] + list(extra_args)
     if known:
         cmd += ["--known", ",".join(known)]
     t0 = time.time()
@@ -485,7 +491,7 @@ def check(pid, tier):
             continue
         seen_sig.add(sig)
         if r["rc"] == -999:
-            print("NOTE: shard %d exceeded its time budget (inconclusive, not a violation)" % r["shard"])
+            print("NOTE: shard %d exceeded its overall time budget (inconclusive, not a violation)" % r["shard"])
             continue
         p0 = save_replay(pid, data, "crash-raw")
         rc, so, se = replay_once(binary, p0, known)
